@@ -1,4 +1,5 @@
 import J5V.Schema.ExportSet
+import J5V.Schema.ImportTotal
 import J5V.Generated.SchemaFacts
 /-!
 # C15 — schema sets survive export to the source-API form and re-import
@@ -25,11 +26,22 @@ theorem C15_fixpoint (pkg : String) (r : SRoot) (h : wfRoot r = true) :
     ∃ r', rootFromDesc pkg (toJ5Root r) = .ok r' ∧ toJ5Root r' = toJ5Root r :=
   ⟨normRoot pkg r, rootFromDesc_toJ5Root pkg r h, toJ5Root_norm pkg r⟩
 
-/-- The round trip never reaches a panic arm of the importer (nil dereference of an absent
-`items` / `item_schema` / property schema) and never one of its error arms. -/
+/-- The round trip never reaches an error arm of the importer. -/
 theorem C15_import_total (pkg : String) (r : SRoot) (h : wfRoot r = true) :
     (rootFromDesc pkg (toJ5Root r)).isOk = true := by
   rw [rootFromDesc_toJ5Root pkg r h]; rfl
+
+/-- **`PackageSetFromSourceAPI` never panics — on any source API**, export image or not. (Until the
+nil check in `schemaFromDesc` an absent `ArrayField.items`, `MapField.item_schema` or
+`ObjectProperty.schema` was a nil dereference; the `import` ops of `schema.loop` push exactly such
+APIs through the real code.) -/
+theorem C15_importer_never_panics (api : Api) : ∀ w, packageSetFromSourceAPI api ≠ .panic w :=
+  packageSetFromSourceAPI_np api
+
+/-- an API with an array without items: an error -/
+example : packageSetFromSourceAPI
+    [("p.v1", [("A", .object (.mk "A" "" "~" [] [.mk "xs" false false "" [1] (some (.array none "~" "~"))]))])] =
+    .err "missing field schema" := by decide
 
 /-! ### nothing is lost
 
